@@ -262,6 +262,8 @@ class Gen:
     # ---- value positions
     def gen_rval_num(self, depth=2, neg_ok=False):
         rng = self.rng
+        if rng.random() < self.opts.get('p_expr', 0.0):
+            return self.gen_expr_rval(self.opts.get('expr_depth', 3))
         r = rng.random()
         nums = self.vars_of('num')
         mnums = [m for m, (t, _) in self.macros.items() if t == 'num']
